@@ -108,8 +108,16 @@ func applyOutcome(b *simbmc.BMC, rx *simbmc.Rx, o Outcome, finalCode byte) {
 		// an undecodable reply: random bytes behind a plausible header, or the
 		// genuine reply cut short at a random position, or (in a session with
 		// integrity) the genuine reply with a byte appended behind the AuthCode
-		style := b.Rand.Intn(4)
+		style := b.Rand.Intn(6)
 		switch {
+		case style == 4:
+			// IPMI-class RMCP header followed by something that is not an RMCP+
+			// wrapper (e.g. an IPMI v1.5 session header: authentication type 0, 1, 2, 4, 5)
+			g := append([]byte{0x06, 0x00, 0xff, 0x07, []byte{0x00, 0x01, 0x02, 0x04, 0x05, 0x16, 0xff}[b.Rand.Intn(7)]}, b.Rand.Bytes(9+b.Rand.Intn(20))...)
+			rx.Replies = []memnet.Out{{Data: g}}
+		case style == 5:
+			// a runt: fewer bytes than an RMCP header
+			rx.Replies = []memnet.Out{{Data: b.Rand.Bytes(b.Rand.Intn(4))}}
 		case style == 2 && len(rx.Replies) > 0 && len(rx.Replies[0].Data) > 1:
 			d := rx.Replies[0].Data
 			rx.Replies = []memnet.Out{{Data: append([]byte(nil), d[:b.Rand.Intn(len(d))]...)}}
